@@ -479,6 +479,49 @@ func (e *Env) applyDecorationsSinks() {
 		ll, ok := ast.Unparen(kv.Value).(*ast.CompositeLit)
 		return ok && len(ll.Elts) == 1 && commentAtCursor(ll.Elts[0], 0)
 	}
+	nJoin := 0
+	// r.comments = append(r.comments, G) where G was assigned a group of one comment at the cursor by
+	// the statement before it
+	groupVarAtCursor := func(body ast.Node, as *ast.AssignStmt) bool {
+		call, ok := ast.Unparen(as.Rhs[0]).(*ast.CallExpr)
+		if !ok || len(call.Args) != 2 || !e.isRestorerField(info, call.Args[0], "comments") {
+			return false
+		}
+		gid, ok := ast.Unparen(call.Args[1]).(*ast.Ident)
+		if !ok {
+			return false
+		}
+		found := false
+		ast.Inspect(body, func(n ast.Node) bool {
+			var list []ast.Stmt
+			switch b := n.(type) {
+			case *ast.BlockStmt:
+				list = b.List
+			case *ast.CaseClause:
+				list = b.Body
+			}
+			for i, st := range list {
+				if st != ast.Stmt(as) || i == 0 {
+					continue
+				}
+				prev, ok := list[i-1].(*ast.AssignStmt)
+				if !ok || len(prev.Lhs) != 1 || len(prev.Rhs) != 1 {
+					continue
+				}
+				pid, ok := prev.Lhs[0].(*ast.Ident)
+				if !ok || pid.Name != gid.Name {
+					continue
+				}
+				// wrap as append(r.comments, <rhs>) to reuse the literal check
+				wrapped := &ast.CallExpr{Fun: call.Fun, Args: []ast.Expr{call.Args[0], prev.Rhs[0]}}
+				if groupOfOneAtCursor(wrapped) {
+					found = true
+				}
+			}
+			return true
+		})
+		return found
+	}
 	scanBody := func(body ast.Node) {
 		var sinks, advs []token.Pos
 		ast.Inspect(body, func(n ast.Node) bool {
@@ -500,8 +543,27 @@ func (e *Env) applyDecorationsSinks() {
 				if e.isRestorerField(info, x.Lhs[0], "comments") {
 					nFree++
 					sinks = append(sinks, x.Pos())
-					if c.ExprStr(x.Rhs[0]) != "append(r.comments, &CommentGroup{List: []*Comment{{Slash: r.cursor, Text: "+dName+"}}})" && !groupOfOneAtCursor(x.Rhs[0]) {
+					if c.ExprStr(x.Rhs[0]) != "append(r.comments, &CommentGroup{List: []*Comment{{Slash: r.cursor, Text: "+dName+"}}})" && !groupOfOneAtCursor(x.Rhs[0]) && !groupVarAtCursor(body, x) {
 						bad = "the free comment list receives `" + c.ExprStr(x.Rhs[0]) + "` at " + e.Prog.Pos(x.Pos())
+					}
+				}
+				// G.List = append(G.List, &ast.Comment{Slash: r.cursor, Text: d}): the comment joins the
+				// group that was appended to the free list for the comment before it
+				if se, ok := ast.Unparen(x.Lhs[0]).(*ast.SelectorExpr); ok && se.Sel.Name == "List" {
+					if p, tn := namedOf(info.TypeOf(se.X)); p == "go/ast" && tn == "CommentGroup" {
+						nFree++
+						nJoin++
+						sinks = append(sinks, x.Pos())
+						call, okc := ast.Unparen(x.Rhs[0]).(*ast.CallExpr)
+						good := false
+						if okc && len(call.Args) == 2 && types.ExprString(call.Args[0]) == types.ExprString(x.Lhs[0]) {
+							if id, ok := call.Fun.(*ast.Ident); ok && id.Name == "append" {
+								good = commentAtCursor(call.Args[1], 0)
+							}
+						}
+						if !good {
+							bad = "a comment group receives `" + c.ExprStr(x.Rhs[0]) + "` at " + e.Prog.Pos(x.Pos())
+						}
 					}
 				}
 				if e.isRestorerField(info, x.Lhs[0], "cursor") && x.Tok == token.ADD_ASSIGN && c.ExprStr(x.Rhs[0]) == "token.Pos(len("+dName+"))" {
@@ -548,6 +610,8 @@ func (e *Env) applyDecorationsSinks() {
 	}
 	e.Run.Check("R-SINK", "applyDecorations: each comment goes to exactly one sink, at the cursor, then the cursor advances by its length", pos, orderOK,
 		"both sinks take the comment at r.cursor; the advance by len(d) must come after them")
+	e.Run.Check("R-SINK", "applyDecorations: comments that follow each other without an empty line share a comment group", pos, nJoin > 0,
+		"every comment is appended to the file's comment list as a group of its own: go/parser puts comments that follow each other without an empty line into one group, and go/printer decides per group whether the comments are printed before the next token — `for k,` / `/* int */ // the value` / `v := range m` is printed with the first comment in front of the comma and no longer parses")
 	_, _ = isComment, toField
 }
 
